@@ -16,15 +16,15 @@ reg("C17",
     level="model_checking",
     technique="explicit-state BFS over the real ll_data_pdu_buffer<TX,RX,Radio>, driven like the nrf52 radio interrupt handler (CRC ok + MIC bad -> acknowledge(read_buffer)), MIC failures at every position of the PDU stream (new and resent PDUs, buffer full or not) against an independent central; NESN and receive ring checked after every MIC failure",
     rule="state = byte image of the real buffer object (rings, SN/NESN bits, counters) + fallback receive buffer + reference model; one transition = one connection event = upper-layer action {none, commit 1 byte, commit 27 bytes, consume, consume after the receive buffer was allocated, new connection = buffer memory reused for advertising + reset_pdu_buffer()} x central {new data, new empty, repeat last PDU, new non-empty PDU with LLID 0} x fault c->p {ok, lost, CRC error, MIC error} x fault p->c {ok, lost}; classes = (ISR path, new/resent data/empty, ack/nak, transmit ring released, kind of answer, central acknowledged). oracle C17: after acknowledge(read_buffer) (CRC ok, MIC bad) NESN is unchanged and the PDU is not in the receive ring; the central's NESN may release the transmit ring",
-    bound="every sequence may contain one new connection (reset_pdu_buffer() on the same object, central restarts with SN=NESN=0) and one non-empty PDU with the reserved LLID 0 (quick units mix58 / mix87: new connection only). quick: TX=RX=29 all reachable states (fixpoint, incl. a central repeating acknowledged PDUs); TX=RX=58 both directions 6 connection events, 87 both directions 5, 58 with a central that also repeats acknowledged PDUs 4; receive direction alone (nothing committed): 58 12 events, 87 8 events; transmit direction alone (central sends empty PDUs): 58 7 events, 87 8 events; real nrf52 ISR as device under test: 58 both directions 4 events. thorough: 58 both directions 8 events (alphabet without new connection / LLID 0) and 7 events (with them), 61 (library default) 6, 87 6, repeated-acknowledged variant 6; receive direction alone: fixpoint = all reachable states for 58 (also with repeated acknowledged PDUs), 87 16 events, 87 with repeated acknowledged PDUs 12 events; transmit direction alone 9 (58) / 12 (87) events; real ISR: 58 7 events, 87 6, receive direction fixpoint, transmit direction 9. Payload ids and packet counters modulo 4.",
+    bound="every sequence may contain one new connection (reset_pdu_buffer() on the same object, central restarts with SN=NESN=0) and one non-empty PDU with the reserved LLID 0 (quick units mix58 / mix87: neither - MIC failures on new PDUs already double the alphabet of C17). quick: TX=RX=29 all reachable states (fixpoint, incl. a central repeating acknowledged PDUs); TX=RX=58 both directions 6 connection events, 87 both directions 5, 58 with a central that also repeats acknowledged PDUs 4; receive direction alone (nothing committed): 58 10 events, 87 8 events; transmit direction alone (central sends empty PDUs): 58 7 events, 87 8 events; real nrf52 ISR as device under test: 58 both directions 4 events. thorough: 58 both directions 8 events (alphabet without new connection / LLID 0) and 7 events (with them), 61 (library default) 6, 87 6, repeated-acknowledged variant 6; receive direction alone: fixpoint = all reachable states for 58 (also with repeated acknowledged PDUs), 87 16 events, 87 with repeated acknowledged PDUs 12 events; transmit direction alone 9 (58) / 12 (87) events; real ISR: 58 7 events, 87 6, receive direction fixpoint, transmit direction 9. Payload ids and packet counters modulo 4.",
     units=[dict(src="harness/C15_ll_buffer.cpp", defs=["ORACLE=17"],
                 variants=[_v("mix29", 29, 0, 1, 40, 40),
-                          _v("mix58", 58, 0, 0, 6, 8, extra=["LLID0_Q=0", "RESETS_T=0", "LLID0_T=0"]),   # quick: with new connection; thorough: the plain alphabet to 8 events (MIC failures on new PDUs double the alphabet of C17)
+                          _v("mix58", 58, 0, 0, 6, 8, extra=["LLID0_Q=0", "RESETS_Q=0", "RESETS_T=0", "LLID0_T=0"]),   # quick: with new connection; thorough: the plain alphabet to 8 events (MIC failures on new PDUs double the alphabet of C17)
                           _v("mix58x", 58, 0, 0, 6, 7, thorough_only=True),                # thorough: with new connection / LLID 0
-                          _v("mix87", 87, 0, 0, 5, 6, extra=["LLID0_Q=0"]),
+                          _v("mix87", 87, 0, 0, 5, 6, extra=["LLID0_Q=0", "RESETS_Q=0"]),
                           _v("mix58f", 58, 0, 1, 4, 6),
                           _v("mix61", 61, 0, 0, 6, 6, thorough_only=True),
-                          _v("rx58", 58, 1, 0, 12, 60),
+                          _v("rx58", 58, 1, 0, 10, 60),
                           _v("rx58f", 58, 1, 1, 60, 60, thorough_only=True),
                           _v("rx87", 87, 1, 0, 8, 16),
                           _v("rx87f", 87, 1, 1, 9, 12, thorough_only=True),
